@@ -380,13 +380,22 @@ class Connection(object):
         if msg == consts.MSG_REQUEST:
             self._dispatch_request(seq, args)
         elif msg == consts.MSG_REPLY:
-            obj = self._unbox(args)
-            self._seq_request_callback(msg, seq, False, obj)
+            self._dispatch_response(msg, seq, False, args)
         elif msg == consts.MSG_EXCEPTION:
-            obj = self._unbox_exc(args)
-            self._seq_request_callback(msg, seq, True, obj)
+            self._dispatch_response(msg, seq, True, args)
         else:
             raise ValueError("invalid message type: %r" % (msg,))
+
+    def _dispatch_response(self, msg, seq, is_exc, args):  # dispatch
+        """a response whose payload cannot be rebuilt on this side fails the request it answers
+        (with the error met while rebuilding it), not the thread that happened to read it"""
+        try:
+            obj = self._unbox_exc(args) if is_exc else self._unbox(args)
+        except EOFError:
+            raise
+        except Exception:
+            is_exc, obj = True, sys.exc_info()[1]
+        self._seq_request_callback(msg, seq, is_exc, obj)
 
     def serve(self, timeout=1, wait_for_lock=True):  # serving
         """Serves a single request or reply that arrives within the given
